@@ -320,14 +320,26 @@ Proof.
   apply has_key_set. exact Hk.
 Qed.
 
+(* the host text of Spec.empty_host, as the model computes it *)
+Lemma empty_host_model s l : truthy (fhost s) = true -> last_opt (fhost s) = Some l ->
+  empty_host (fhost s) =
+  if has_char c_colon (fhost s) && negb (l =? c_rbr)
+  then negb (truthy (strip (before_last colon (fhost s)))) else negb (truthy (strip (fhost s))).
+Proof.
+  intros Et El. unfold empty_host, host_text, has_port, ends_with_char. rewrite Et, El. cbn [andb].
+  change (memb colon (fhost s)) with (has_char c_colon (fhost s)). change rbr with c_rbr.
+  destruct (has_char c_colon (fhost s) && negb (l =? c_rbr)); reflexivity.
+Qed.
+
 Lemma stage_host_no_exn s : has_key k_url_scheme (env s) -> no_exn (stage_host s).
 Proof.
   intros Hk e. unfold stage_host. cbv zeta. destruct (truthy (fhost s)) eqn:Et; [|discriminate].
   destruct (last_opt_truthy _ Et) as [l ->].
   destruct (has_char c_colon (fhost s) && negb (l =? c_rbr)) eqn:Ec.
   - apply andb_true_iff in Ec as [Ec _]. unfold has_char in Ec.
-    rewrite (rsplit1_has _ _ Ec). discriminate.
-  - assert (Hk2 : has_key k_url_scheme (set k_http_host (fhost s) (set k_server_name (fhost s) (env s))))
+    rewrite (rsplit1_has _ _ Ec). destruct (negb (truthy _)); discriminate.
+  - destruct (negb (truthy (strip (fhost s)))); [discriminate|].
+    assert (Hk2 : has_key k_url_scheme (set k_http_host (fhost s) (set k_server_name (fhost s) (env s))))
       by (do 2 apply has_key_set; exact Hk).
     unfold has_key in Hk2.
     destruct (truthy (fport s)); [|cbn [bind]; discriminate].
@@ -337,16 +349,35 @@ Proof.
     + destruct (lookup k_url_scheme _); [|congruence]. destruct (negb (beqb _ _)); cbn [bind]; discriminate.
 Qed.
 
-Lemma stage_host_no_malformed s h : stage_host s <> Malformed h.
+(* the host stage refuses exactly the empty host *)
+Lemma stage_host_malformed s h : stage_host s = Malformed h ->
+  empty_host (fhost s) = true /\ h = if opt_truthy (fwd s) then h_fwd_host else h_xfh.
 Proof.
-  unfold stage_host. cbv zeta. destruct (truthy (fhost s)); [|discriminate].
-  destruct (last_opt (fhost s)); [|discriminate].
-  destruct (has_char c_colon (fhost s) && negb (n =? c_rbr)).
-  - destruct (rsplit1 (fhost s) [c_colon]) as [|a [|b [|c l]]]; discriminate.
-  - destruct (truthy (fport s)); [|cbn [bind]; discriminate].
-    destruct (negb (beqb (fport s) s_443 || beqb (fport s) s_80)); [cbn [bind]; discriminate|].
-    destruct (beqb (fport s) s_80); destruct (lookup k_url_scheme _); cbn [bind]; try discriminate;
-      destruct (negb (beqb _ _)); cbn [bind]; discriminate.
+  unfold stage_host. cbv zeta. destruct (truthy (fhost s)) eqn:Et; [|discriminate].
+  destruct (last_opt (fhost s)) as [l|] eqn:El; [|discriminate].
+  rewrite (empty_host_model s l Et El).
+  destruct (has_char c_colon (fhost s) && negb (l =? c_rbr)) eqn:Ec.
+  - pose proof Ec as Ec'. apply andb_true_iff in Ec' as [Ec' _]. unfold has_char in Ec'.
+    rewrite (rsplit1_has _ _ Ec'). change c_colon with colon.
+    destruct (negb (truthy (strip (before_last colon (fhost s))))); [|discriminate].
+    intro H. injection H as <-. auto.
+  - destruct (negb (truthy (strip (fhost s)))).
+    + intro H. injection H as <-. auto.
+    + destruct (truthy (fport s)); [|cbn [bind]; discriminate].
+      destruct (negb (beqb (fport s) s_443 || beqb (fport s) s_80)); [cbn [bind]; discriminate|].
+      destruct (beqb (fport s) s_80); destruct (lookup k_url_scheme _); cbn [bind]; try discriminate;
+        destruct (negb (beqb _ _)); cbn [bind]; discriminate.
+Qed.
+
+Lemma stage_host_empty s : empty_host (fhost s) = true -> exists h, stage_host s = Malformed h.
+Proof.
+  intro He. unfold stage_host. cbv zeta.
+  destruct (truthy (fhost s)) eqn:Et; [|unfold empty_host in He; rewrite Et in He; discriminate].
+  destruct (last_opt_truthy _ Et) as [l El]. rewrite El. rewrite (empty_host_model s l Et El) in He.
+  destruct (has_char c_colon (fhost s) && negb (l =? c_rbr)) eqn:Ec.
+  - pose proof Ec as Ec'. apply andb_true_iff in Ec' as [Ec' _]. unfold has_char in Ec'.
+    rewrite (rsplit1_has _ _ Ec'). change c_colon with colon. rewrite He. eauto.
+  - rewrite He. eauto.
 Qed.
 
 (* the host stage only writes SERVER_NAME and HTTP_HOST and leaves the client alone *)
@@ -356,23 +387,30 @@ Lemma stage_host_ok s s' : stage_host s = Ok s' ->
                lookup key (env s') = lookup key (env s)) /\
   (fhost s = [] -> s' = s) /\
   (fhost s <> [] -> lookup k_server_name (env s') = Some (strip (host_text (fhost s))) \/
-                    lookup k_server_name (env s') = Some (fhost s) /\ has_port (fhost s) = false).
+                    lookup k_server_name (env s') = Some (fhost s) /\ has_port (fhost s) = false) /\
+  empty_host (fhost s) = false.
 Proof.
   unfold stage_host. cbv zeta. destruct (truthy (fhost s)) eqn:Et.
-  2:{ intro H. injection H as <-. repeat split; auto. intro Hn. apply truthy_false in Et. congruence. }
+  2:{ intro H. injection H as <-. repeat split; auto.
+      - intro Hn. apply truthy_false in Et. congruence.
+      - unfold empty_host. rewrite Et. reflexivity. }
   destruct (last_opt (fhost s)) as [l|] eqn:El; [|discriminate].
   assert (Hne : fhost s <> []) by (apply truthy_true; exact Et).
   assert (Hhp : has_port (fhost s) = has_char c_colon (fhost s) && negb (l =? c_rbr)).
   { unfold has_port, ends_with_char. rewrite El. reflexivity. }
+  rewrite (empty_host_model s l Et El).
   destruct (has_char c_colon (fhost s) && negb (l =? c_rbr)) eqn:Ec.
   - pose proof Ec as Ec'. apply andb_true_iff in Ec' as [Ec' _]. unfold has_char in Ec'.
-    rewrite (rsplit1_has _ _ Ec'). intro H. injection H as <-. cbn.
+    rewrite (rsplit1_has _ _ Ec'). change c_colon with colon.
+    destruct (negb (truthy (strip (before_last colon (fhost s))))); [discriminate|].
+    intro H. injection H as <-. cbn.
     repeat split; auto.
     + intros key H1 H2. rewrite !lookup_set, H1, H2. reflexivity.
     + congruence.
     + intros _. left. rewrite lookup_set_other by keq. rewrite lookup_set_same.
       unfold host_text. rewrite Hhp. reflexivity.
-  - intro H. apply bind_ok in H as (e3 & He3 & H). injection H as <-. cbn.
+  - destruct (negb (truthy (strip (fhost s)))); [discriminate|].
+    intro H. apply bind_ok in H as (e3 & He3 & H). injection H as <-. cbn.
     assert (Hfr : forall key, beqb key k_server_name = false -> beqb key k_http_host = false ->
                   lookup key e3 = lookup key (env s)).
     { intros key H1 H2.
@@ -423,7 +461,7 @@ Lemma stage_client_spec s :
   match client s with
   | Some (c0 :: c') =>
     let c := c0 :: c' in
-    if bad_client c then Exn IndexError
+    if bad_client c then Malformed (if opt_truthy (fwd s) then h_fwd else h_xff)
     else
       let e1 := set k_remote_addr (unbracket (addr_text c)) (env s) in
       let e2 := match port_text c with Some p => set k_remote_port p e1 | None => e1 end in
